@@ -34,6 +34,7 @@ func (s *span) init() {
 	s.p = 0
 	s.b = mallocgc(uintptr(sz), 0, false)
 	s.n = sz
+	vh(1, uintptr(sz), uintptr(s.b), uintptr(unsafe.Pointer(s)))
 }
 
 func (s *span) Malloc(n, align int) unsafe.Pointer {
@@ -46,10 +47,12 @@ func (s *span) Malloc(n, align int) unsafe.Pointer {
 		s.p = 0
 		s.b = mallocgc(uintptr(sz), 0, false)
 		s.n = sz
+		vh(1, uintptr(sz), uintptr(s.b), uintptr(unsafe.Pointer(s)))
 	}
 	ret := unsafe.Add(s.b, s.p) // b[p:]
 	// memory addr alignment off: aligned(ret) - ret
 	off := (uintptr(ret)+uintptr(mask)) & ^uintptr(mask) - uintptr(ret)
 	s.p += n + int(off)
+	vh(2, uintptr(n)<<8|uintptr(align), uintptr(unsafe.Add(ret, off)), uintptr(unsafe.Pointer(s)))
 	return unsafe.Add(ret, off)
 }
